@@ -514,6 +514,12 @@ pub fn run_shard(
         if fam.variant != my_variant {
             continue;
         }
+        // development aid: restrict a run to the families whose name contains the given text
+        if let Ok(f) = std::env::var("VCHECK_FAMILY") {
+            if !fam.name.contains(&f) {
+                continue;
+            }
+        }
         if let Some(en) = fam.enumerate {
             let mut i = shard as u64;
             let mut done = 0u64;
